@@ -40,7 +40,8 @@ CLAIMED = {
               "and homogeneous in the stack; for ssb, prlx, icom the aperture-weighted reconstructions of two complementary sub-masks "
               "sum to the full-mask result; zero-aberration parallax equals the sum of mean-subtracted images over the aperture "
               "weight, and with defocus / astigmatism / rotation the same sum after translating image i by grad chi(k_i)/2pi "
-              "(translation written independently as a Fourier phase ramp)"),
+              "(translation written independently as a Fourier phase ramp; the shift itself from central differences of the real "
+              "aberration surface, not from the gradient routines the reconstruction calls)"),
         note=("probe-side quantities are the float32 values the real code computes (they do not depend on the stack), so equalities "
               "are asked with tolerance 2e-5 for stack values in [-1,1]; upsampling 2 only in the thorough tier, upsampling 3, "
               "larger scans, contrast-transfer sign flipping, noise and hyper-parameter optimisation are outside"),
@@ -119,12 +120,12 @@ CLAIMED = {
         technique="term-valued symbolic execution of the real NumPy and torch cross-correlation estimators on a structured spectrum family; argmax / floor / round / mod by solver-checked concretisation; returned-shift, antisymmetry and zero-shift claims decided by z3",
         text=("bounded model checking by symbolic execution on the family 'delta image vs. reference with symbolic spectral magnitudes "
               "p_k in [0.1, 1] and a concrete integer shift': for image shapes 4x4, 4x2, 2x4, every listed integer shift in the cell "
-              "(incl. beyond half the size and zero) and upsampling 1, 2, 4 both estimators return exactly the applied "
-              "shift and negate it when the images are swapped; each argmax and each integer part taken by the code is shown to be "
+              "(incl. beyond half the size and zero) and upsampling 1, 2, 3, 4, 8 (thorough: 7) both estimators return exactly the applied "
+              "shift and negate it when the images are swapped, and registering the same arrays a second time returns it again; each argmax and each integer part taken by the code is shown to be "
               "the same for all admissible magnitudes before it is used concretely"),
         note=("restricted input family (Fourier-space inputs, linear-phase reference), exact DFT lengths 2 and 4 only; arbitrary image "
-              "content, sub-pixel shifts / the 1/upsample accuracy clause, max_shift, return_shifted_image and upsampling factors other than 1, 2, 4 are "
-              "outside; real arithmetic"),
+              "content, sub-pixel shifts / the 1/upsample accuracy clause, max_shift, other upsampling factors, and the NumPy estimator on "
+              "4x4 with a non-zero shift at factors 7 and 8 (does not finish) are outside; real arithmetic"),
         design_ref="DESIGN.md §5 C13"),
     "C14": dict(
         engine="X",
@@ -138,14 +139,16 @@ CLAIMED = {
         design_ref="DESIGN.md §5 C14"),
     "C15": dict(
         engine="S",
-        technique="term-valued symbolic execution of the real NumPy knot-construction / transform_rows / bilinear-splat code on a symbolic scan direction (cos/sin atoms) and symbolic sample coordinates; geometry and unit-weight identities decided by z3 (QF_NRA)",
+        technique="term-valued symbolic execution of the real NumPy knot-construction / transform_rows / bilinear-splat code on a symbolic scan direction (cos/sin atoms) and symbolic sample coordinates, and of the real align_translation + cross_correlation_shift on identical images with a symbolic power spectrum; geometry, unit-weight and fixed-point identities decided by z3",
         text=("bounded model checking by symbolic execution for every scan angle: pixel (r, c) maps to canvas centre + rotated "
               "offset for image shapes 3x3, 3x5, 4x2, 5x4, 1-4 knots and pad fractions 0/0.25/0.5 (hence identical coordinates for "
               "1, 2, 3, 4 knots); the scan vectors are a rotation; the bilinear splat weights of every sample sum to one so the "
-              "weight map sums to the number of pixels"),
+              "weight map sums to the number of pixels; for 2 and 3 identical warped images with any power spectrum q_k in [0.01, 1] on a 4x4 "
+              "canvas the real align_translation leaves every knot where it was (upsampling 1, 3, 8; thorough 1, 2, 3, 4, 7, 8)"),
         note=("real arithmetic; interp1d is replaced by the unique interpolating polynomial for n = order+1 knots, gaussian_filter "
-              "by a sum-preserving operator, bincount by a total-preserving scatter-add; the identical-image fixed point of "
-              "align_translation is not decided here (it rests on the registration estimator, C13)"),
+              "by a sum-preserving operator, bincount by a total-preserving scatter-add; in the fixed-point claims np.fft.fft2 of the "
+              "identical warped images is replaced by their common spectrum sqrt(q_k) (real, positive) and warp_image after the "
+              "alignment is recorded only"),
         design_ref="DESIGN.md §5 C15"),
     "C16": dict(
         engine="S",
@@ -167,9 +170,11 @@ CLAIMED = {
               "150 seeded / all 125 forests on 4 nodes) with symbolic offsets satisfying 'potential - wrap count is constant per "
               "tree', one union step re-establishes the invariant and leaves other trees alone; (3) _build_edges returns exactly "
               "the 4-neighbour pairs inside the mask for every mask on grids up to 3x3, with and without wrap-around; (4) whole runs "
-              "on 1x2 and 1x3 grids return the true phase up to one constant on every feasible edge order"),
+              "on 1x2 and 1x3 grids return the true phase up to one constant on every feasible edge order; (5) the masked-embedding wrapper "
+              "unwrap_bf_overlap_phase_torch returns the true phase up to one constant on a 2-pixel overlap region of a 3-pixel detector grid"),
         note=("the step from (1)-(3) to arbitrary grids/masks is a stated pen-and-paper induction over the edge list, not a query; "
-              "pi is math.pi as an exact rational on both sides; the Poisson method and unwrap_bf_overlap_phase_torch are outside"),
+              "pi is math.pi as an exact rational on both sides; torch.angle of the overlap values is stubbed by the symbolic wrapped phases; "
+              "the Poisson method and larger overlap regions are outside"),
         design_ref="DESIGN.md §5 C17"),
     "C18": dict(
         engine="S",
